@@ -4,7 +4,7 @@
 cd "$(dirname "$0")" || exit 2
 CP=/opt/veriftools/tla/tla2tools.jar:/opt/veriftools/tla/CommunityModules-deps.jar
 rc=0
-for m in MC_MemFS_q; do
+for m in MC_MemFS_q MC_Whiteout_q; do
   md=$(mktemp -d)
   timeout 900 java -XX:+UseParallelGC -Xss1g -Xmx8g -DTLA-Library="$(cd ../spec && pwd)" -cp $CP tlc2.TLC -workers 8 \
     -metadir "$md" -cleanup -noGenerateSpecTE -config $m.cfg $m.tla > $m.out 2>&1
